@@ -151,7 +151,7 @@ def narrow(rng, a, p=0.15):
     return b, b.astype(float), dt.__name__
 
 
-COUNT_TYPES = [int, np.int64, np.int32, np.intp, np.int16, np.uint8, np.uint16, np.uint32, np.uint64]
+COUNT_TYPES = [int, np.int64, np.int32, np.intp, np.int16, np.uint8, np.uint16, np.uint32, np.uint64, np.int8]
 
 
 def count_arg(rng, k, p=0.35):
